@@ -43,7 +43,7 @@ Disjoint == ~(Complete(g) /\ Incomplete(g))
 Lattice == << [kLI |-> <<69314718, -8>>, num |-> 9, den |-> 25], [kLI |-> <<10986123, -7>>, num |-> 16, den |-> 25],
               [kLI |-> <<40546511, -8>>, num |-> 25, den |-> 169], [kLI |-> <<16094379, -7>>, num |-> 144, den |-> 169] >>
 \* integrals of the built-in profiles over [-1/2, 1/2]: uniform 1, parabolic 1-(2z)^2 -> 2/3, rcos (1+cos 2 pi z)/2 -> 1/2,
-\* gaussian exp(-4 ln2 (3z)^2) -> 0.35467613 (mpmath, 30 digits); user callables of the harness: 1-|z| -> 3/4, 1/2+z^2 -> 7/12
+\* gaussian exp(-4 ln2 (3z)^2) -> 0.35467613 (mpmath, 30 digits); user callables of the harness: 1-|z| -> 3/4, 1/2+z^2 -> 7/12, 1+0.8z -> 1
 Profiles == [uniform |-> <<10000000, -7>>, parabolic |-> <<66666667, -8>>, rcos |-> <<50000000, -8>>, gaussian |-> <<35467613, -8>>,
-             tri |-> <<75000000, -8>>, quad |-> <<58333333, -8>>]
+             tri |-> <<75000000, -8>>, quad |-> <<58333333, -8>>, tilt |-> <<10000000, -7>>]      \* tilt: 1 + 0.8 z (not symmetric) -> 1
 =============================================================================
